@@ -121,6 +121,26 @@ func runCBC(c cbcCase, r *pb.Rec) error {
 	if err != nil || n != len(c.Plain) || !bytes.Equal(out[:n], c.Plain) {
 		return fmt.Errorf("AESCBCDecrypt(inplace=%v) = %d, %v (%x) want %x", c.InPlaceDec, n, err, out[:max(n, 0)], c.Plain)
 	}
+	// the caller overwrites its key buffer in place with another key of the same length: the next call uses the new key
+	kb := append([]byte(nil), c.Key...)
+	for i := range kb { // a key value that no earlier call has seen, first used through this very buffer
+		kb[i] ^= byte(0x11 + 7*i)
+	}
+	_ = cryptz.AESCBCEncrypt(make([]byte, encLen), c.Plain, kb, c.IV)
+	for i := range kb {
+		kb[i] ^= byte(0xa7 + 3*i)
+	}
+	blkB, _ := aes.NewCipher(kb)
+	wantB := make([]byte, len(padded))
+	cipher.NewCBCEncrypter(blkB, c.IV).CryptBlocks(wantB, padded)
+	dstB := make([]byte, encLen)
+	if err := cryptz.AESCBCEncrypt(dstB, c.Plain, kb, c.IV); err != nil || !bytes.Equal(dstB, wantB) {
+		return fmt.Errorf("AESCBCEncrypt after the key buffer was overwritten in place = %x, %v want %x (stale cached key?)", dstB, err, wantB)
+	}
+	outB := make([]byte, len(wantB))
+	if nB, err := cryptz.AESCBCDecrypt(outB, wantB, kb, c.IV); err != nil || !bytes.Equal(outB[:nB], c.Plain) {
+		return fmt.Errorf("AESCBCDecrypt after the key buffer was overwritten in place = %x, %v want %x", outB[:max(nB, 0)], err, c.Plain)
+	}
 	// the same key again with another IV and plaintext: no state may be carried over between calls
 	iv2 := append([]byte(nil), c.IV...)
 	for i := range iv2 {
@@ -285,6 +305,30 @@ func runGCM(c gcmCase, r *pb.Rec) error {
 		}
 	} else if err == nil {
 		return fmt.Errorf("AESGCMDecrypt accepted corrupted input (where=%d bit=%d)", c.CorruptWhere, c.CorruptBit)
+	}
+	// key buffer overwritten in place between two GCM calls
+	{
+		kb := append([]byte(nil), c.Key...)
+		for i := range kb {
+			kb[i] ^= byte(0x23 + 11*i)
+		}
+		sealedOld := make([]byte, encLen)
+		_ = cryptz.AESGCMEncrypt(sealedOld, c.Plain, kb, c.Nonce, c.AAD)
+		for i := range kb {
+			kb[i] ^= byte(0x39 + 5*i)
+		}
+		blkB, _ := aes.NewCipher(kb)
+		refB, _ := cipher.NewGCMWithNonceSize(blkB, len(c.Nonce))
+		wantB := refB.Seal(nil, c.Nonce, c.Plain, c.AAD)
+		want = sealedOld
+		dstB := make([]byte, encLen)
+		if err := cryptz.AESGCMEncrypt(dstB, c.Plain, kb, c.Nonce, c.AAD); err != nil || !bytes.Equal(dstB, wantB) {
+			return fmt.Errorf("AESGCMEncrypt after the key buffer was overwritten in place = %x, %v want %x (stale cached key?)", dstB, err, wantB)
+		}
+		// a message sealed under the OLD key must not open under the new one
+		if err := cryptz.AESGCMDecrypt(make([]byte, len(c.Plain)), want, kb, c.Nonce, c.AAD); err == nil {
+			return fmt.Errorf("AESGCMDecrypt opened a message sealed under the old key after the key buffer was overwritten in place")
+		}
 	}
 	// same key again, other nonce size: results must still equal the standard library's (no state kept between calls)
 	if len(c.Nonce2) > 0 {
